@@ -95,7 +95,7 @@ def drain_functions(crate):
     out = []
     for b in crate.fns():
         for c in b.all_calls():
-            if c.callee and c.callee.name == "remove" and c.args and mir.role_mentions_field(c.body.role_of_operand(c.args[0]), "pending"):
+            if c.callee and c.callee.name in ("remove", "remove_entry", "pop_first", "take") and c.args and mir.role_mentions_field(c.body.role_of_operand(c.args[0]), "pending"):
                 # the drain picks the key from the work-list itself (a handler that takes a stale entry of its own key along is not a drain)
                 if len(c.args) > 1 and not mir.role_mentions_field(c.body.role_of_operand(c.args[1]), "pending"):
                     continue
